@@ -291,7 +291,7 @@ def run(ck):
         R.check_field_bits(ck, it, r[0], data_bits_be("data", 8, 16), fn, "decoded day count == octets 1..2")
         R.check_field_bits(ck, it, r[1], data_bits_be("data", 24, 32), fn, "decoded millisecond of day == octets 3..6")
         st, m = D.prove(env.facts, binop(">=", length(data), C(7)))
-        ck.verdict("G-REFUSE", fn, "input shorter than 7 octets is refused", [] if st == "proved" else [f"{st}: {m}"], "len(data) >= 7 on return")
+        ck.verdict3("G-REFUSE", fn, "input shorter than 7 octets is refused", st, m, "len(data) >= 7 on return")
         # accepted P-fields: finite case analysis over the 256 octet values
         bad = []
         for pv in range(256):
